@@ -104,8 +104,11 @@ class Ctx:
             try:
                 from .panics import public_api, reachable_from
                 b = self.prog.find(fn_short)
-                if b is not None:
-                    roots = tuple(sorted(a.short for a in public_api(self.prog) if b.id in set(x.id for x in reachable_from(self.prog, [a]))))
+                cands = [b] if b is not None else [x for x in self.prog.bodies.values() if x.short == fn_short]
+                if cands:
+                    # a closure's short name does not say which function it belongs to: all bodies of that name count
+                    ids = set(x.id for x in cands)
+                    roots = tuple(sorted(a.short for a in public_api(self.prog) if ids & set(x.id for x in reachable_from(self.prog, [a]))))
             except Exception:
                 roots = None
             self._roots_cache[fn_short] = roots
